@@ -119,3 +119,44 @@ async fn replay_c16_op_sequences() {
     for f in failures.iter().take(4) { println!("FAILING-INPUT property=C16 {}", f); }
     assert!(failures.is_empty(), "C16 violated on the real code ({} sequences)", failures.len());
 }
+
+/// "Data written before the store is reopened is still there" (C16).  Not provable by contract (rocksdb durability is an
+/// assumption on the dependency); this drives the REAL store: write, drop every handle (the store task ends and releases the
+/// database lock), reopen the same path, read.  Smoke evidence only.
+#[tokio::test]
+async fn replay_c16_reopen_keeps_data() {
+    let path = ".db_verif_replay_store_reopen";
+    let _ = fs::remove_dir_all(path);
+    let mut failures = Vec::new();
+    let mut model: Model<Vec<u8>, Vec<u8>> = Model::new();
+    for generation in 0..3u8 {
+        // the previous generation's task may still hold the lock for a moment after its last handle was dropped
+        let mut store = None;
+        for _ in 0..200 {
+            match Store::new(path) {
+                Ok(s) => { store = Some(s); break; }
+                Err(_) => { std::thread::sleep(std::time::Duration::from_millis(5)); tokio::task::yield_now().await; }
+            }
+        }
+        let mut store = match store {
+            Some(s) => s,
+            None => { failures.push(format!("generation {}: the store could not be reopened", generation)); break; }
+        };
+        for (k, v) in model.iter() {
+            match store.read(k.clone()).await {
+                Ok(Some(got)) if &got == v => (),
+                other => failures.push(format!("generation {}: key {:?} written before the reopen reads {:?}, expected {:?}", generation, k, other.ok(), v)),
+            }
+        }
+        for i in 0..20u8 {
+            let (k, v) = (vec![i % 7, generation % 2], vec![generation, i]);
+            store.write(k.clone(), v.clone()).await;
+            model.insert(k, v);
+        }
+        barrier(&mut store).await;   // every write above has been handled by the store task
+        drop(store);
+    }
+    let _ = fs::remove_dir_all(path);
+    for f in failures.iter().take(4) { println!("FAILING-INPUT property=C16 {}", f); }
+    assert!(failures.is_empty(), "C16 (reopen) violated on the real code: {} findings", failures.len());
+}
